@@ -992,6 +992,9 @@ func (g *c18Gen) site(items *[]c18Item, hist func(string), backend, issuer, site
 				add(dir+f, "raw", 0, "foreign "+f, "")
 			}
 		}
+		if g.r.Intn(2) == 0 { // an expired certificate in a file whose name merely ends in "crt": not an X.crt
+			add(dir+"archive-crt", "cert", g.certOff("expired_ge_grace", grace), "", "")
+		}
 		if g.r.Intn(2) == 0 { // path.Ext is case-sensitive: an expired certificate in X.CRT is not looked at
 			add(dir+"other.CRT", "cert", g.certOff("expired_ge_grace", grace), "", "")
 			add(dir+"other.key", "raw", 0, "@key", "")
@@ -1436,6 +1439,16 @@ func c18Corpus() []struct {
 			}{c.class, c18Spec{Backend: "fs", Items: base, Runs: []c18Run{rr}}})
 		}
 	}
+	// the Delete of an emptied site folder fails (call 10): deleteExpiredCerts returns; the next site is not
+	// visited in this run, the record is still written
+	{
+		its := append(full("iss", "a-dead.example", -30*day), full("iss", "b-dead.example", -40*day)...)
+		r := c18Run{Certs: true, Grace: 0, Cancel: -1, Inst: "corpus", Faults: []int{10}}
+		out = append(out, struct {
+			class string
+			spec  c18Spec
+		}{"corpus_folder_delete_fails", c18Spec{Backend: "fs", Items: its, Runs: []c18Run{r}}})
+	}
 	// two concurrent cleaners, second one must wait and then skip / clean again
 	items := append(full("iss", "dead.example", -30*day), full("iss", "live.example", 30*day)...)
 	items = append(items, c18Item{Key: "ocsp/a-2", Kind: "staple", Off: -3600})
@@ -1588,16 +1601,34 @@ func runC18(tier string, seed int64, outdir string, replay string) error {
 			}
 			byKind := map[int][]int{}
 			var kinds []int
+			listed := map[string]bool{}
 			for j, ev := range own {
-				if len(byKind[ev.Kind]) == 0 {
-					kinds = append(kinds, ev.Kind)
+				k := ev.Kind
+				// finer kinds where the code branches on the outcome: 7 = Delete of an emptied site folder (follows
+				// its Stat), 8 = second listing of a site folder, 9 = Delete of X.key / X.json (follows a Delete)
+				switch {
+				case k == 5 && j > 0 && own[j-1].Kind == 4:
+					k = 7
+				case k == 3 && listed[ev.Key]:
+					k = 8
+				case k == 5 && j > 0 && own[j-1].Kind == 5:
+					k = 9
 				}
-				byKind[ev.Kind] = append(byKind[ev.Kind], j)
+				if ev.Kind == 3 {
+					listed[ev.Key] = true
+				}
+				if len(byKind[k]) == 0 {
+					kinds = append(kinds, k)
+					if k == 4 || k >= 7 { // the rarer branch points three times as likely
+						kinds = append(kinds, k, k)
+					}
+				}
+				byKind[k] = append(byKind[k], j)
 			}
 			if len(kinds) > 0 {
 				k := kinds[g.r.Intn(len(kinds))]
 				at := byKind[k][g.r.Intn(len(byKind[k]))]
-				name := []string{"Lock", "Unlock", "Load", "List", "Stat", "Delete", "Store"}[k]
+				name := []string{"Lock", "Unlock", "Load", "List", "Stat", "Delete", "Store", "FolderDelete", "SecondList", "RelatedDelete"}[k]
 				if g.r.Intn(4) == 0 && at > 0 {
 					sp.Runs[0].Cancel = at
 					w.Hist("env=aimed_cancel:" + name)
